@@ -437,6 +437,9 @@ func damagedFrame(r *simrt.RNG, kinds []string, xid uint32, stream bool) Frame {
 	f.bytes = nil
 	f.Size = hint
 	k := r.Pick(70, 20, 10) + 1
+	if r.Chance(0.12) {
+		k = 0 // an undamaged corpus frame: unusual but well-formed input (deep nesting, maximum sizes, rare kinds)
+	}
 	cur := b
 	for i := 0; i < k; i++ {
 		var op FaultOp
@@ -488,6 +491,19 @@ func genTotality(prop string, seed uint64, kinds []string, target string, bareIn
 				panic("harness: " + err.Error())
 			}
 			total += len(b)
+			bounds = append(bounds, total)
+		}
+		// a fifth of the stream legs end with bytes that desynchronise the framing: a header whose
+		// length field is below the header size (or anything else), followed by garbage
+		if r.Chance(0.2) {
+			tl := 8 + r.Intn(64)
+			tb := r.Bytes(tl)
+			tb[0] = 4
+			tb[1] = uint8(r.Intn(30))
+			ln := []int{0, 1, 2, 3, 4, 5, 6, 7, 8, 9, 12, r.Intn(65536)}[r.Intn(12)]
+			tb[2], tb[3] = byte(ln>>8), byte(ln)
+			sc.Tail = fmt.Sprintf("%x", tb)
+			total += tl
 			bounds = append(bounds, total)
 		}
 		sc.Chunks = genChunks(r, bounds, total)
